@@ -162,6 +162,9 @@ type norm struct {
 	plumbing    map[string]bool
 	inGenerated bool
 	curFn       *ast.FuncDecl
+	closureOf   map[*types.Var]*types.Func // local function literals treated as helpers (per round)
+	closureDef  map[*types.Func]*ast.AssignStmt
+	closureLit  map[*types.Func]*ast.FuncLit
 }
 
 // Normalize rewrites files in place. It returns the package and info of the final type check
@@ -206,6 +209,40 @@ func Normalize(fset *token.FileSet, files []*ast.File, pkg *types.Package, info 
 			}
 		}
 	}
+	// a method turned into a plain function or the reverse (same parameters and results): unique
+	// match on both sides only
+	sigOnly := func(fp string) string {
+		if i := strings.Index(fp, " func("); i >= 0 {
+			return fp[i+1:]
+		}
+		return fp
+	}
+	absentBySig := map[string][]string{}
+	for fp, ks := range absent {
+		for _, k := range ks {
+			absentBySig[sigOnly(fp)] = append(absentBySig[sigOnly(fp)], k)
+		}
+	}
+	newBySig := map[string][]*ast.FuncDecl{}
+	for _, f := range files {
+		for _, d := range f.Decls {
+			fd, ok := d.(*ast.FuncDecl)
+			if !ok || fd.Body == nil || known[Key(fd)] {
+				continue
+			}
+			if fn, ok := info.Defs[fd.Name].(*types.Func); ok {
+				so := sigOnly(Fingerprint(pkg, fn))
+				newBySig[so] = append(newBySig[so], fd)
+			}
+		}
+	}
+	for so, ks := range absentBySig {
+		if len(ks) == 1 && len(newBySig[so]) == 1 && so != "func() ()" {
+			fd := newBySig[so][0]
+			n.rep.Renamed = append(n.rep.Renamed, ks[0]+" -> "+Key(fd))
+			known[Key(fd)] = true
+		}
+	}
 	sort.Strings(n.rep.Renamed)
 	cands := map[string]bool{}
 	for _, f := range files {
@@ -219,10 +256,7 @@ func Normalize(fset *token.FileSet, files []*ast.File, pkg *types.Package, info 
 		n.rep.Candidates = append(n.rep.Candidates, k)
 	}
 	sort.Strings(n.rep.Candidates)
-	if len(cands) == 0 {
-		return pkg, info, n.rep, nil
-	}
-	for round := 0; round < 12; round++ {
+	for round := 0; round < 12 && len(cands) > 0; round++ {
 		n.collect()
 		changed, err := n.round()
 		if err != nil {
@@ -241,6 +275,16 @@ func Normalize(fset *token.FileSet, files []*ast.File, pkg *types.Package, info 
 			return nil, nil, n.rep, fmt.Errorf("normalised source does not type-check after round %d: %v", round+1, err)
 		}
 		n.pkg, n.info = p2, i2
+	}
+	// parameter objects are taken apart again (needs current type information; then the callers'
+	// struct variables are used field by field only)
+	if n.sroaParams() {
+		p2, i2, err := check(files)
+		if err != nil {
+			return nil, nil, n.rep, fmt.Errorf("normalised source does not type-check after splitting struct parameters: %v", err)
+		}
+		n.pkg, n.info = p2, i2
+		n.rep.Rounds++
 	}
 	// local struct variables that are only used field by field become one variable per field
 	if n.rep.Rounds > 0 && n.sroa() {
@@ -321,6 +365,7 @@ func (n *norm) collect() {
 	n.decls = map[*types.Func]*ast.FuncDecl{}
 	n.fileOf = map[*ast.FuncDecl]*ast.File{}
 	n.leaf = map[*types.Func]bool{}
+	n.closureOf, n.closureDef, n.closureLit = nil, nil, nil
 	n.defOf = map[types.Object]*ast.Ident{}
 	for id, o := range n.info.Defs {
 		if o != nil {
@@ -383,6 +428,9 @@ func (n *norm) calleeOf(c *ast.CallExpr) *types.Func {
 	case *ast.Ident:
 		if fn, ok := n.info.Uses[f].(*types.Func); ok {
 			return fn
+		}
+		if v, ok := n.info.Uses[f].(*types.Var); ok && n.closureOf[v] != nil {
+			return n.closureOf[v]
 		}
 	case *ast.SelectorExpr:
 		if sel := n.info.Selections[f]; sel != nil {
@@ -459,6 +507,9 @@ func (n *norm) round() (bool, error) {
 			}
 			localNames := n.localNames(fd)
 			n.curFn = fd
+			if !n.inGenerated {
+				n.registerClosures(fd, file)
+			}
 			// (0) hoist statements out of if/switch init positions when they hold an expandable call
 			astutil.Apply(fd.Body, func(c *astutil.Cursor) bool {
 				switch s := c.Node().(type) {
@@ -526,6 +577,7 @@ func (n *norm) round() (bool, error) {
 				}
 				return true
 			})
+			n.removeExpandedClosures(fd)
 		}
 	}
 	return changed, nil
@@ -1792,4 +1844,147 @@ func (n *norm) aliasable(id *ast.Ident, want types.Type) bool {
 		return single
 	})
 	return single
+}
+
+// registerClosures: `f := func(…) {…}` where f is never reassigned and only ever called is a
+// helper of this one function: its calls are expanded like calls of a declared helper (the
+// variables it captures are the caller's own, in scope at every call site; a call site where one
+// of them is shadowed is left alone).
+func (n *norm) registerClosures(fd *ast.FuncDecl, file *ast.File) {
+	if n.closureOf == nil {
+		n.closureOf = map[*types.Var]*types.Func{}
+		n.closureDef = map[*types.Func]*ast.AssignStmt{}
+		n.closureLit = map[*types.Func]*ast.FuncLit{}
+	}
+	ast.Inspect(fd.Body, func(x ast.Node) bool {
+		as, ok := x.(*ast.AssignStmt)
+		if !ok || as.Tok != token.DEFINE || len(as.Lhs) != 1 || len(as.Rhs) != 1 {
+			return true
+		}
+		lit, ok := as.Rhs[0].(*ast.FuncLit)
+		if !ok {
+			return true
+		}
+		id, ok := as.Lhs[0].(*ast.Ident)
+		if !ok || id.Name == "_" {
+			return true
+		}
+		v, ok := n.info.Defs[id].(*types.Var)
+		if !ok || n.closureOf[v] != nil {
+			return true
+		}
+		sig, ok := n.info.TypeOf(lit).(*types.Signature)
+		if !ok || sig.Variadic() {
+			return true
+		}
+		// every use is the function position of a call outside the literal, and f is never assigned
+		okUses := true
+		calls := map[*ast.Ident]bool{}
+		ast.Inspect(fd.Body, func(y ast.Node) bool {
+			if c, isCall := y.(*ast.CallExpr); isCall {
+				if cid, isId := ast.Unparen(c.Fun).(*ast.Ident); isId && n.info.Uses[cid] == types.Object(v) {
+					calls[cid] = true
+				}
+			}
+			return true
+		})
+		ast.Inspect(fd.Body, func(y ast.Node) bool {
+			if uid, isId := y.(*ast.Ident); isId && n.info.Uses[uid] == types.Object(v) && !calls[uid] {
+				okUses = false
+			}
+			return true
+		})
+		ast.Inspect(lit, func(y ast.Node) bool {
+			if uid, isId := y.(*ast.Ident); isId && n.info.Uses[uid] == types.Object(v) {
+				okUses = false // recursive
+			}
+			return true
+		})
+		if !okUses || len(calls) == 0 {
+			return true
+		}
+		synth := &ast.FuncDecl{Name: &ast.Ident{NamePos: id.NamePos, Name: id.Name}, Type: lit.Type, Body: lit.Body}
+		if n.eligible(synth) != "" {
+			return true
+		}
+		// captured variables must denote the same object at every call site
+		inLit := map[*ast.Ident]bool{}
+		ast.Inspect(lit, func(y ast.Node) bool {
+			if did, isId := y.(*ast.Ident); isId {
+				inLit[did] = true
+			}
+			return true
+		})
+		captured := map[types.Object]bool{}
+		ast.Inspect(lit.Body, func(y ast.Node) bool {
+			if uid, isId := y.(*ast.Ident); isId {
+				if o, isVar := n.info.Uses[uid].(*types.Var); isVar && !o.IsField() && o.Parent() != nil && o.Parent() != n.pkg.Scope() && o.Parent() != types.Universe {
+					if did := n.defOf[o]; did == nil || !inLit[did] {
+						captured[o] = true
+					}
+				}
+			}
+			return true
+		})
+		for cid := range calls {
+			if !cid.Pos().IsValid() {
+				return true
+			}
+			inner := n.pkg.Scope().Innermost(cid.Pos())
+			if inner == nil {
+				return true
+			}
+			for o := range captured {
+				if _, found := inner.LookupParent(o.Name(), cid.Pos()); found != o {
+					return true
+				}
+			}
+		}
+		fake := types.NewFunc(id.NamePos, n.pkg, id.Name, sig)
+		n.closureOf[v] = fake
+		n.closureDef[fake] = as
+		n.closureLit[fake] = lit
+		n.decls[fake] = synth
+		n.fileOf[synth] = file
+		leaf := true
+		ast.Inspect(lit.Body, func(y ast.Node) bool {
+			if c, isCall := y.(*ast.CallExpr); isCall {
+				if callee := n.calleeOf(c); callee != nil && n.decls[callee] != nil {
+					leaf = false
+				}
+			}
+			return true
+		})
+		n.leaf[fake] = leaf || n.relaxed
+		return true
+	})
+}
+
+// removeExpandedClosures deletes the definition of a local function literal all of whose calls
+// were expanded (it would be an unused variable).
+func (n *norm) removeExpandedClosures(fd *ast.FuncDecl) {
+	for v, fake := range n.closureOf {
+		def := n.closureDef[fake]
+		inFn, remaining := false, 0
+		ast.Inspect(fd.Body, func(y ast.Node) bool {
+			if y == ast.Node(def) {
+				inFn = true
+			}
+			if uid, isId := y.(*ast.Ident); isId && n.info.Uses[uid] == types.Object(v) {
+				remaining++
+			}
+			return true
+		})
+		if !inFn || remaining > 0 {
+			continue
+		}
+		astutil.Apply(fd.Body, func(c *astutil.Cursor) bool {
+			if c.Node() == ast.Node(def) && c.Index() >= 0 {
+				c.Delete()
+				return false
+			}
+			return true
+		}, nil)
+		n.rep.Expanded["(closure) "+Key(fd)+"."+v.Name()]++
+	}
 }
